@@ -195,9 +195,10 @@ def _random_points_boundary(main_domain, domain_a, domain_b, n, params, device):
         )
         use_b = False  # to switch between sampling on a and b
         rounds = 0
-        # sample on both boundaries at least once: for small n the points of a
-        # alone may already be enough and b would never be proposed
-        while len(ith_points) < n or rounds < 2:
+        # always sample on both boundaries equally often (for small n the points of
+        # a alone may already be enough and b would never be proposed, and a last
+        # extra round on a would make its part denser than the part of b)
+        while len(ith_points) < n or rounds % 2 == 1:
             rounds += 1
             new_points = domains[use_b].boundary.sample_random_uniform(
                 n=sclaed_n[use_b], params=ith_params, device=device
